@@ -848,7 +848,9 @@ func typeAssert(instr *ssa.TypeAssert, itf iface) value {
 
 	} else if idst, ok := instr.AssertedType.Underlying().(*types.Interface); ok {
 		v = itf
-		err = checkInterface(idst, itf)
+		if _, native := itf.v.(nativeMethods); !native {
+			err = checkInterface(idst, itf)
+		}
 
 	} else if types.Identical(itf.t, instr.AssertedType) {
 		v = itf.v // extract value
